@@ -325,12 +325,91 @@ func scenario(r *hx.Run, rng *gen.Rng, id string, w, h int, rgb, su, ew, sync bo
 	return nil
 }
 
+// corpusStyles are the styles a corpus scenario can name by index.
+var corpusStyles = []vaxis.Style{{}, {Foreground: vaxis.IndexColor(1), Hyperlink: "http://a"},
+	{Attribute: vaxis.AttrBold, Background: vaxis.RGBColor(1, 2, 3), Hyperlink: "http://a"}, {Foreground: vaxis.IndexColor(1)}}
+
+// corpus replays one minimised past failure (corpus/C01/*.ops). Lines:
+//
+//	session <w> <h> <rgb> <su> <ew> <sync> <uc>     (0/1 each; first line)
+//	set <col> <row> <grapheme hex|-> <width> <style index>
+//	clear | render | refresh
+//
+// The scenario lines are echoed into the stream (the driver ignores them) so that a replay file of
+// such a case can be re-run.
+func corpus(r *hx.Run, rng *gen.Rng, id string, ops []string) error {
+	var s *session
+	defer func() {
+		if s != nil {
+			s.close()
+		}
+	}()
+	for _, op := range ops {
+		f := strings.Fields(op)
+		if len(f) == 0 {
+			continue
+		}
+		if f[0] == "session" && len(f) == 8 && s == nil {
+			var v [7]int
+			for i := range v {
+				fmt.Sscan(f[i+1], &v[i])
+			}
+			var err error
+			s, err = newSession(r, rng, id, v[0], v[1], v[2] == 1, v[3] == 1, v[4] == 1, v[5] == 1, v[6] == 1)
+			if err != nil {
+				return err
+			}
+			r.Emit(op, "-")
+			continue
+		}
+		if s == nil {
+			continue // lines of a replay file that precede / are not part of the scenario
+		}
+		switch {
+		case f[0] == "set" && len(f) == 6:
+			var col, row, w, si int
+			fmt.Sscan(f[1], &col)
+			fmt.Sscan(f[2], &row)
+			fmt.Sscan(f[4], &w)
+			fmt.Sscan(f[5], &si)
+			g := ""
+			if f[3] != "-" {
+				b := make([]byte, len(f[3])/2)
+				fmt.Sscanf(f[3], "%x", &b)
+				g = string(b)
+			}
+			r.Emit(op, "-")
+			s.vx.Window().SetCell(col, row, vaxis.Cell{Character: vaxis.Character{Grapheme: g, Width: w}, Style: corpusStyles[si%len(corpusStyles)]})
+		case f[0] == "clear":
+			r.Emit(op, "-")
+			s.vx.Window().Clear()
+		case f[0] == "render":
+			s.render(false)
+		case f[0] == "refresh":
+			s.render(true)
+		}
+	}
+	r.Count("corpus-case")
+	return nil
+}
+
 func ch(g string) vaxis.Cell { return vaxis.Cell{Character: vaxis.Character{Grapheme: g}} }
 
 func run(r *hx.Run) error {
 	rng := gen.New(r.Seed)
 	if r.Replay != "" {
-		return fmt.Errorf("replay of C01 cases: re-run with the seed recorded in the replay file")
+		// a replay file of a corpus scenario can be re-run; generated histories are reproduced by
+		// re-running with the seed recorded in the replay file
+		var ops []string
+		if err := hx.ReplayOps(r, func(op []string) (string, bool) { ops = append(ops, strings.Join(op, " ")); return "-", true }); err != nil {
+			return err
+		}
+		return corpus(r, rng, "replay", ops)
+	}
+	for i, ops := range hx.Corpus("C01") {
+		if err := corpus(r, rng, fmt.Sprintf("corpus-%d", i), ops); err != nil {
+			return err
+		}
 	}
 	// Bounded-exhaustive two-frame histories on a 1-row screen: frame 1 places two glyphs,
 	// frame 2 (after a Clear or not) places two more. 5 graphemes × 3 styles.
